@@ -71,7 +71,7 @@ def gen_defn(rng, kind, i=0):
                                            n_reading=(1, 2), depth=1, n_shared=(0, 0))
     if kind == "direct":
         d = gen.program(rng, n_state=(1, 5), n_control=(0, 3), n_calib=(0, 2), n_sensor=(0, 1),
-                        depth=2 if rng.random() < 0.5 else 3, wraps=(i % 4 == 1))
+                        depth=2 if (rng.random() < 0.5 or i % 4 == 0) else 3, wraps=(i % 4 == 1))
         if i % 4 == 0:
             # the definition-time option of ui.Model that rewrites the expressions before compilation
             d["proactive_simplify"] = True
